@@ -5,7 +5,7 @@ From Coq Require Import List Arith Bool PeanoNat Lia.
 Import ListNotations.
 Require Import Fggs.Model.SCC Fggs.Model.SumProduct Fggs.Model.Kleene
                Fggs.Proofs.SP_mono Fggs.Proofs.Kleene_proofs Fggs.Proofs.Kleene_control
-               Fggs.Proofs.Kleene_linear Fggs.Model.Semiring.
+               Fggs.Proofs.Kleene_linear Fggs.Proofs.Kleene_scc Fggs.Model.Semiring.
 
 (** labels: 0 = terminal a, 1 = nonterminal X, 2 = nonterminal Y; all of type [node label 0] *)
 Definition exG : grammar :=
@@ -45,6 +45,31 @@ Proof.
   destruct ex_enclosure as (lo & H & H1 & _).
   exists lo. split; [|exact H1].
   apply (enclosure_bool_exact exG exw 3 lo lo ex_wf H).
+Qed.
+
+(** the hypotheses of the SCC decomposition theorem: a global least fixed point exists, and
+    [[1]; [2]] is a dependency order of exG *)
+Example ex_is_lfp : exists mu, is_lfp_on bool_ops exG (nonterminals exG) (step bool_ops exG exw) mu.
+Proof.
+  destruct ex_enclosure as (lo & H & _).
+  exists (env_of bool_ops lo).
+  destruct (enclosure_bool_exact exG exw 3 lo lo ex_wf H) as (_ & Hfix & Hleast & _).
+  split; [exact Hfix | exact Hleast].
+Qed.
+
+Example ex_dep_ordered : dep_ordered exG [] [[1]; [2]].
+Proof.
+  cbn [dep_ordered app]. repeat split.
+  - intros n r ed [<-|[]] Hr Hed Ht. cbn in Hr.
+    destruct Hr as [<-|[<-|[]]]; cbn in Hed.
+    + destruct Hed as [<-|[<-|[]]]; cbn in Ht |- *; [auto | discriminate].
+    + destruct Hed as [<-|[]]; cbn in Ht; discriminate.
+  - intros n [<-|[]]. cbn. auto.
+  - intros n r ed [<-|[]] Hr Hed Ht. cbn in Hr.
+    destruct Hr as [<-|[<-|[]]]; cbn in Hed.
+    + destruct Hed as [<-|[<-|[]]]; cbn; auto.
+    + destruct Hed as [<-|[]]; cbn in Ht; discriminate.
+  - intros n [<-|[]]. cbn. auto.
 Qed.
 
 (** a pre-fixed point that is not the least one: everything true *)
